@@ -215,6 +215,7 @@ structure M where
   globals : Nat := 0                  -- id of the global table
   strMeta : Nat := 0                  -- id of the metatable shared by all strings
   faultAt : Option Nat := none        -- inject a fault when `steps` reaches this value
+  viaHost : Bool := false            -- the pending call was issued by a host function (pcall, xpcall), not by Lua code
   steps : Nat := 0
 deriving Inhabited
 
